@@ -52,6 +52,12 @@ class Check:
         if len(self.obligations) < 400:
             self.obligations.append(dict(rule=rule, site=site, status='HOLDS', **({'detail': detail} if detail else {})))
 
+    def defer(self, msg):
+        """a refusal that need not stop the run: reported as ANALYSIS-ERROR (exit 2) at the end unless a violation was found (exit 1)"""
+        if not hasattr(self, 'deferred'):
+            self.deferred = []
+        self.deferred.append(msg)
+
     def violate(self, rule, key, what, detail=None):
         """key identifies the failing construct / input class (stable, no line numbers)"""
         self.rule_counts[rule] = self.rule_counts.get(rule, 0) + 1
@@ -104,6 +110,9 @@ class Check:
         # vacuity protection
         if partial is not None and not new:
             return None
+        if partial is None and not new and getattr(self, 'deferred', None):
+            # a refusal recorded while the run went on (so that violations elsewhere are still found): nothing was found, so it stands
+            raise AnalysisError(self.deferred[0] + (f' (and {len(self.deferred) - 1} more)' if len(self.deferred) > 1 else ''))
         if partial is None:
             self.check_length_branches()
         for rule, n in (self.floors.items() if partial is None else ()):
@@ -122,6 +131,8 @@ class Check:
         nk = sum(1 for v in self.violations if v['status'] == 'KNOWN')
         if partial is not None:
             print(f'ANALYSIS-ERROR property={self.pid} reason={partial} (the run stopped here; the violations above were found before it)')
+        for d in getattr(self, 'deferred', [])[:3]:
+            print(f'ANALYSIS-ERROR property={self.pid} reason={d} (not decided; the violations above were found elsewhere)')
         print(f"[{self.pid}] tier={self.tier} obligations={sum(self.rule_counts.values())} "
               f"violations={len(new)} known={nk} evaluations={self.evaluations} wall={time.time() - self.t0:.1f}s")
         return exit_code
